@@ -889,6 +889,26 @@ def c12_hostname_timeout_timer(ctx):
     return q.result()
 
 
+def c12_hostname_timeout_due(ctx):
+    q = Q("c12_hostname_timeout_due", ["Zeroconf::run::{closure} (which hostname resolvers have timed out)"],
+          "every deadline and every now (u64 x u64)", [])
+    cands = [n for n, f in ctx.funcs.items() if "::run::{closure#" in n and n.count("{closure#") == 2 and f.ret == "bool" and len(f.args) == 2 and f.args[1][1] == "u64"]
+    if len(cands) != 1:
+        q.unknown.append(f"deadline test closure: {len(cands)} candidates")
+        return q.result()
+    now, t = z3.BitVec("now", 64), z3.BitVec("deadline", 64)
+    env = Tup([Ref(("nowcell", 1), (), mutable=False)])
+    ex = Explorer(ctx.funcs, ctx.consts)
+    rets = [p for p in ex.explore(cands[0], args=[env, BV(t, 64)], objs={("nowcell", 1): {(): BV(now, 64)}}) if p.outcome == "return"]
+    if not rets or ex.unknown_constructs:
+        q.unknown.append("closure not translated")
+    for i, p in enumerate(rets):
+        q.valid(p.cond, p.ret.e == z3.UGE(now, t), f"path {i}: a resolver is timed out exactly from its deadline on (now >= deadline)", p.ret.taint)
+        q.witness(p.cond + [p.ret.e], "due")
+        q.witness(p.cond + [z3.Not(p.ret.e)], "not yet")
+    return q.result()
+
+
 def c12_conflict_probe_timer(ctx):
     q = Q("c12_conflict_probe_timer", ["Zeroconf::conflict_handler (window: new probe created for a renamed record)"],
           "window from the creation of a new probe (entry().or_insert_with) to Probe::insert_record; probe state arbitrary", ["window slice"])
@@ -1680,7 +1700,7 @@ SPECS = {
     "C05": [c05_reset_restores, c05_verify_deadline, c05_verify_shortens_only, c05_evict_predicate, c05_removed_addr_key],
     "C18": [c18_affected_host_lowercase],
     "C07": [c07_probe_clock, c07_reannounce_delay, c07_check_probing_paths],
-    "C12": [c12_poll_timeout, c12_ipcheck_rearm, c12_hostname_timeout_timer, c12_conflict_probe_timer, c12_tiebreak_retry_timer, c11_cache_flush_rule, c05_verify_deadline, c07_check_probing_paths],
+    "C12": [c12_poll_timeout, c12_ipcheck_rearm, c12_hostname_timeout_timer, c12_hostname_timeout_due, c12_conflict_probe_timer, c12_tiebreak_retry_timer, c11_cache_flush_rule, c05_verify_deadline, c07_check_probing_paths],
     "C19": [c19_browse_backoff, c19_hostname_backoff, c19_resolve_retry, c19_initial_delay, c19_rerun_due, c19_browse_listener_gone],
     "C08": [c08_tiebreak_count_operands, c08_rename_by_record_kind, c08_answer_uses_resolved_host],
     "C16": [c16_decode_txt_step, c16_first_key_wins],
